@@ -710,6 +710,68 @@ def r17_stat_converter_covers_every_datetime_dtype(ctx):
         raise AnalysisError(f"stat converters with a datetime branch found: {n}")
 
 
+def _own_nodes(fn):
+    """nodes of a function body without those of nested functions / classes"""
+    todo = list(fn.body)
+    while todo:
+        x = todo.pop()
+        yield x
+        for c in ast.iter_child_nodes(x):
+            if not isinstance(c, (ast.FunctionDef, ast.AsyncFunctionDef, ast.ClassDef, ast.Lambda)):
+                todo.append(c)
+
+
+def r18_writer_converter_keeps_the_value(ctx):
+    """The writer's stat converter may change the *representation* of a statistic (a Timestamp as text, a Timedelta as its
+    nanoseconds) but not its value: whatever it returns is the statistic itself or something obtained from the statistic
+    alone (`stat.strftime(...)`, `getattr(stat, "value", stat)`).  A return that computes another value - an infinite bound
+    written as the largest finite float - makes the re-read schema a different schema (ge(-1.797e308) rejects -inf)."""
+    io = ctx.ix.module(IO)
+    n = 0
+    # decided on the source as written (the normaliser inlines the small converter into its caller, where "the statistic" is
+    # no longer a parameter): every function, at any nesting depth, that renders its own parameter with strftime
+    raw = ast.parse(io.source)
+    fns = [x for x in ast.walk(raw) if isinstance(x, (ast.FunctionDef, ast.AsyncFunctionDef))]
+    for fn in fns:
+        own = [x for x in _own_nodes(fn)]
+        params = {a.arg for a in fn.args.posonlyargs + fn.args.args + fn.args.kwonlyargs}
+        recv = [c.func.value.id for c in own if isinstance(c, ast.Call) and isinstance(c.func, ast.Attribute) and c.func.attr == "strftime"
+                and isinstance(c.func.value, ast.Name) and c.func.value.id in params]
+        if not recv:
+            continue
+        stat = recv[0]
+        f = next((g for g in io.all_functions if g.name == fn.name), io.all_functions[0])
+        ctx.touched(f)
+        for r in own:
+            if not isinstance(r, ast.Return) or r.value is None:
+                continue
+            n += 1
+            v = r.value
+
+            def rooted(e):
+                if isinstance(e, ast.Name):
+                    return e.id == stat
+                if isinstance(e, ast.IfExp):
+                    return rooted(e.body) and rooted(e.orelse)
+                if isinstance(e, ast.Attribute):
+                    return rooted(e.value)
+                if isinstance(e, ast.Call):
+                    if isinstance(e.func, ast.Attribute):
+                        return rooted(e.func.value)
+                    if isinstance(e.func, ast.Name) and e.func.id in ("getattr", "str", "int", "float") and e.args:
+                        return rooted(e.args[0])
+                if isinstance(e, (ast.List, ast.Tuple, ast.ListComp)):
+                    return True   # element-wise conversions are judged where the element converter returns
+                return False
+            ok = rooted(v)
+            ctx.ob("R18", f, f"writer's stat converter returns the statistic or a rendering of it: `{txt(r)[:50]}`", ok,
+                   "derived from the statistic alone" if ok else
+                   f"`{txt(r)[:90]}` writes a value that is not the statistic: from_yaml(to_yaml(S)) has another bound than S (an inferred -inf / inf bound "
+                   "becomes +-1.797e308 and the re-read schema rejects the data it was inferred from)", f"{io.path}:{r.lineno}")
+    if n < 3:
+        raise AnalysisError(f"writer's stat converter: returns found: {n}")
+
+
 def run(ctx):
     from ..defassign import check_modules
     check_modules(ctx, "R10", ('pandera/io/pandas_io.py', 'pandera/schema_statistics/pandas.py'), "escapes serialisation: the round trip is not even attempted")
@@ -723,6 +785,7 @@ def run(ctx):
     r15_column_keys_as_they_are(ctx)
     r16_multiindex_rebuilt_with_its_options(ctx)
     r17_stat_converter_covers_every_datetime_dtype(ctx)
+    r18_writer_converter_keeps_the_value(ctx)
     ix = ctx.ix
     io = ix.module(IO)
     st = ix.module(STATS)
